@@ -16,6 +16,45 @@ DEFAULT_MACROS = [("log", "info"), ("log", "warn"), ("log", "error")]
 
 
 def render_cfg(cfg):
+    b = _render_cfg(cfg)
+    style = cfg.get("yaml_style")
+    if not style:
+        return b
+    t = b.decode()
+    if style == "quoted":
+        t = t.replace("source_dir: %s" % cfg.get("source_dir", "./src"), "source_dir: \"%s\"" % cfg.get("source_dir", "./src"))
+        t = t.replace("module: ", "module: '").replace("\n      name:", "'\n      name:")
+    elif style == "comments":
+        t = t.replace("rust:", "# the Rust section\nrust:   # trailing comment").replace("---\n", "---\n# Breadlog configuration\n\n")
+    elif style == "reordered":
+        lines = t.split("\n")
+        i = [k for k, l in enumerate(lines) if l.startswith("source_dir:")][0]
+        sd = lines.pop(i)
+        lines.insert(len(lines) - 1, sd)
+        t = "\n".join(lines)
+    elif style == "flow":
+        macs = cfg.get("macros", DEFAULT_MACROS)
+        flow = "  log_macros: [" + ", ".join("{module: %s, name: %s}" % (m, n) for m, n in macs) + "]"
+        lines = t.split("\n")
+        out, skip = [], False
+        for l in lines:
+            if l.startswith("  log_macros:"):
+                out.append(flow)
+                skip = True
+                continue
+            if skip and (l.startswith("    - module:") or l.startswith("      name:")):
+                continue
+            skip = False
+            out.append(l)
+        t = "\n".join(out)
+    elif style == "no_doc_start":
+        t = t.replace("---\n", "", 1)
+    elif style == "crlf":
+        t = t.replace("\n", "\r\n")
+    return t.encode()
+
+
+def _render_cfg(cfg):
     out = ["---"]
     for k in cfg.get("extra_top", []):      # keys Breadlog does not know: it must ignore them
         out.append(k)
@@ -272,6 +311,14 @@ def file_stmts(segs):
 
 def wm_world(wm):
     """Render the model to a materialisable world dict."""
+    w = _wm_world(wm)
+    for p, t in (wm.get("mtimes") or {}).items():
+        if p in w and w[p]["t"] == "f":
+            w[p] = dict(w[p], mtime=t)
+    return w
+
+
+def _wm_world(wm):
     w = {}
     for p, e in wm.get("extra", {}).items():
         w[p] = e
@@ -339,7 +386,7 @@ def gen_ids(rng, n, p_have=0.4, lo=1, hi=60, special=None):
 
 def gen_world_model(rng, structured=None, use_cache="rand", nfiles=None, sizes=None, p_have=0.4, id_hi=60,
                     lock="rand", shapes=None, max_stmts=4, min_missing=1, special_ids=None, crlf_p=0.0, unicode_p=0.0,
-                    decoy_p=0.25, custom_macros_p=0.15, layout_p=0.1, heads_p=0.12, many=None, extra_keys_p=0.3, modes_p=0.15):
+                    decoy_p=0.25, custom_macros_p=0.15, layout_p=0.1, heads_p=0.12, many=None, extra_keys_p=0.3, modes_p=0.15, mtimes_p=0.3, many_files=None, yaml_style_p=0.3):
     """A project with generated in-scope source files under proj/src (nested sometimes)."""
     macros = None
     if rng.random() < custom_macros_p:
@@ -352,6 +399,8 @@ def gen_world_model(rng, structured=None, use_cache="rand", nfiles=None, sizes=N
     if macros:
         cfg["macros"] = [list(m) for m in macros]
     add_extra_keys(rng, cfg, extra_keys_p)
+    if rng.random() < yaml_style_p:
+        cfg["yaml_style"] = rng.choice(["quoted", "comments", "reordered", "flow", "no_doc_start", "crlf"])
     if use_cache == "rand":
         cfg["use_cache"] = rng.choice([True, None, None, False])
     else:
@@ -384,6 +433,16 @@ def gen_world_model(rng, structured=None, use_cache="rand", nfiles=None, sizes=N
         sc = rng.choice(sizes or ["tiny", "tiny", "tiny", "k8", "k64"])
         files["proj/src/" + names[fi]] = g.source_file(structured, ns, sc, ids, shapes, crlf=rng.random() < crlf_p,
                                                        unicode_p=unicode_p, decoy_p=decoy_p, layout_p=layout_p)
+    if many_files:
+        # a great many small files (counts around powers of two)
+        mod0, mac0 = (macros or DEFAULT_MACROS)[0]
+        for j in range(many_files):
+            g.n += 1
+            mk = "mk%05dq" % g.n
+            has = rng.random() < 0.5
+            txt = render_stmt("bare", mk, mac0, (1000 + j) if has else None, structured, "small", module=mod0)
+            files["proj/src/many/d%02d/f%04d.rs" % (j % 17, j)] = [["pad", "fn s() {\n"], ["stmt", mk, txt], ["pad", "}\n"]]
+            missing += 0 if has else 1
     if many:
         # one file with a great many statements on top (counts around powers of two)
         mod0, mac0 = (macros or DEFAULT_MACROS)[0]
@@ -417,6 +476,15 @@ def gen_world_model(rng, structured=None, use_cache="rand", nfiles=None, sizes=N
             segs.insert(len(segs) - 1, g.stmt(structured, None, shapes))
             segs.insert(len(segs) - 1, ["pad", "}\n"])
     wm = {"cfg": cfg, "files": files, "extra": {}, "lock": None, "nmark": g.n}
+    if rng.random() < mtimes_p:
+        # file times all over the place: years old, in the future, older/newer than the lock - nothing may depend on them
+        base = 1790000000
+        mt = {}
+        for p in sorted(files):
+            mt[p] = base + rng.choice([-400 * 86400, -86400, -1, 0, 1, 3600, 400 * 86400])
+        mt["proj/Breadlog.lock"] = base + rng.choice([-86400, 0, 86400])
+        mt["proj/Breadlog.yaml"] = base + rng.choice([-86400, 0, 86400 * 30])
+        wm["mtimes"] = mt
     if modes_p:
         # read-only, private or executable source files (Breadlog replaces files, so it does not keep the mode: an
         # observation outside the properties; the classifiers compare bytes only)
